@@ -33,6 +33,7 @@ Inductive expr :=
 | EFun (ps : list (ident * option expr)) (body : expr)
 | EApp (f : expr) (pos : list expr) (named : list (ident * expr)) (tailstrict : bool)
 | EObj (locals : list (ident * expr)) (asserts : list (expr * option expr)) (fields : list field)
+| EObjComp (name : expr) (body : expr) (specs : list cspec)   (* {[name]: body for .. if ..} *)
 | EError (e : expr)
 | EAssert (c : expr) (m : option expr) (rest : expr)
 | ETrace (l : N) (e : expr)                  (* std.trace("L<l>", e) *)
